@@ -184,7 +184,11 @@ def auth(x0: int, x1: int, x2: int, k0: int, k1: int) -> bool:
             if k == b'proxy-authorization':
                 return fail('credentials forwarded to the origin (first request)')
         # second request on the kept-alive connection, again with credentials
-        req2 = b'GET http://h/y HTTP/1.1\r\n' + name + b': ' + value + b'\r\n\r\n'
+        if CFG.get('second_connect'):
+            # a CONNECT as follow-up request of a plain connection is relayed to the origin like any other request: without credentials
+            req2 = b'CONNECT h:443 HTTP/1.1\r\n' + name + b': ' + value + b'\r\n\r\n'
+        else:
+            req2 = b'GET http://h/y HTTP/1.1\r\n' + name + b': ' + value + b'\r\n\r\n'
         cs.inq.append(req2)
         try:
             td = run(h.handle_events([cs.fd], []))
@@ -195,7 +199,7 @@ def auth(x0: int, x1: int, x2: int, k0: int, k1: int) -> bool:
             m2 = refhttp.read_message(sent2, False)
         except refhttp.Malformed as e:
             return fail('second forwarded request malformed', why=str(e), sent2=repr(sent2[:80]))
-        if m2['start'][1] != b'/y':
+        if not CFG.get('second_connect') and m2['start'][1] != b'/y':
             return fail('second request not forwarded', start=repr(m2['start']))
         for k, n, v in m2['headers']:
             if k == b'proxy-authorization':
@@ -234,6 +238,8 @@ def obligations(tier):
         add('auth.truncate.keep%d' % keep, {'shape': 'truncate', 'keep': keep, 'n': 1})
     for sch in ('Bearer', 'Digest', 'basic', 'BASIC', 'Basi', 'Basicc'):
         add('auth.scheme.%s' % sch, {'shape': 'scheme', 'scheme': sch})
+    add('auth.replace.0_1.second_connect', {'shape': 'replace', 'pos': [0, 1], 'second': True, 'second_connect': True})
+    add('auth.append.1.second_connect', {'shape': 'append', 'n': 1, 'second': True, 'second_connect': True})
     add('auth.replace.0_1.disable_headers', {'shape': 'replace', 'pos': [0, 1], 'second': True, 'dh': True})
     add('auth.append.1.disable_headers', {'shape': 'append', 'n': 1, 'second': True, 'dh': True})
     for ci in (1, 2):
